@@ -118,6 +118,7 @@ func (r *Run) Cap(what string) {
 // Bound records a sub-bound that was completed in full.
 func (r *Run) Bound(what string) {
 	r.mu.Lock()
+	what = fmt.Sprintf("%s [t+%.0fs]", what, time.Since(r.start).Seconds())
 	r.bounds = append(r.bounds, what)
 	r.mu.Unlock()
 }
